@@ -170,13 +170,16 @@ package xmss
 //@ pred wCsum(msg, p) := spec.wshift(spec.wsum(msg, p.len1, p.logW, p.w), wShift(p))
 //@ pred wDigit(msg, p, i) := spec.wdig(msg, i, p.logW, p.w, p.len1, wShift(p), wBytes(p))
 //@ lemma xmss.L_chain_cong[XF] induction k uses xmss.L_randF_cong : forall k, hf, PS:arr, A1:arr, A2:arr, X:arr, s :: (forall w_ :: 0 <= w_ && w_ < 6 ==> A1[w_] == A2[w_]) ==> spec.chain(hf, PS, A1, X, s, k) == spec.chain(hf, PS, A2, X, s, k)
+// the same with separate step / start variables: two chain terms then match whatever form their arithmetic arguments have
+//@ lemma xmss.L_chain_cong2[XF] uses xmss.L_chain_cong : forall k1, k2, hf, PS:arr, A1:arr, A2:arr, X:arr, s1, s2 :: k1 == k2 && s1 == s2 && (forall w_ :: 0 <= w_ && w_ < 6 ==> A1[w_] == A2[w_]) ==> spec.chain(hf, PS, A1, X, s1, k1) == spec.chain(hf, PS, A2, X, s2, k2)
 //@ lemma xmss.L_wpkNode_congA[XF] uses xmss.L_chain_cong : forall hf, PS:arr, A1:arr, A2:arr, SG:arr, so, M:arr, mo, lw, w, len1, sh, nb, i :: (forall w_ :: 0 <= w_ && w_ < 5 ==> A1[w_] == A2[w_]) ==> spec.wpkNode(hf, PS, A1, SG, so, M, mo, lw, w, len1, sh, nb, i) == spec.wpkNode(hf, PS, A2, SG, so, M, mo, lw, w, len1, sh, nb, i)
 //@ pred wpkNode(hf, pubSeed, A, sig, msg, p, i) := spec.wpkNode(hf, spec.sub(pubSeed, 32), A, sig, msg, p.logW, p.w, p.len1, wShift(p), wBytes(p), i)
 //@ pred wpkByte(hf, pubSeed, A, sig, msg, p, pp) := wpkNode(hf, pubSeed, A, sig, msg, p, pp/32)[pp%32]
 //@ func wotsPKFromSig
-//@   use xmss.L_chain_cong
+//@   use xmss.L_chain_cong2
 //@   uselate xmss.L_wpkNode_congA
 //@   hide spec.chain
+//@   hide spec.bwdig
 //@   requires wotsOK(wotsParams) && len(pk) >= wotsParams.keySize && len(sig) >= wotsParams.keySize && len(msg) >= 32 && len(pubSeed) >= 32
 //@   ensures forall k_ :: 0 <= k_ && k_ < 5 ==> addr[k_] == old(addr[k_])
 //@   ensures[XF] hashfunction <= 2 ==> forall i_, q_ :: 0 <= i_ && i_ < wotsParams.len && 0 <= q_ && q_ < 32 ==> pk[32*i_+q_] == wpkNode(hashfunction, pubSeed, arr(old(addr)), sig, msg, wotsParams, i_)[q_]
@@ -425,8 +428,9 @@ package xmss
 //@ lemma xmss.L_chain_compose[XF] induction b : forall b, hf, PS:arr, A:arr, X:arr, s, a :: a >= 0 && s >= 0 ==> spec.chain(hf, PS, A, spec.chain(hf, PS, A, X, s, a), s + a, b) == spec.chainS(hf, PS, A, X, s, a + b)
 //@ pred wsigN(hf, pubSeed, A, sk, msg, p, i) := spec.wsigNode(hf, spec.sub(pubSeed, 32), A, sk, msg, p.logW, p.w, p.len1, wShift(p), wBytes(p), i)
 //@ func wotsSign
-//@   use xmss.L_chain_cong
+//@   use xmss.L_chain_cong2
 //@   hide spec.chain
+//@   hide spec.bwdig
 //@   requires wotsOK(params) && len(sig) >= params.keySize && len(msg) >= 32 && len(sk) >= 32 && len(pubSeed) >= 32
 //@   ensures forall k_ :: 0 <= k_ && k_ < 5 ==> addr[k_] == old(addr[k_])
 //@   ensures[XF] hashFunction <= 2 ==> forall i_, q_ :: 0 <= i_ && i_ < params.len && 0 <= q_ && q_ < 32 ==> sig[32*i_+q_] == wsigN(hashFunction, pubSeed, arr(old(addr)), sk, msg, params, i_)[q_]
